@@ -14,10 +14,11 @@ func init() {
 		ruleGRDcrc(w, r)
 		ruleCDC6b(w, r)
 		ruleGRDscan(w, r)
-		ruleORD11(w, r)       // the offset a resync starts from never lags behind the frames already applied
-		ruleCDC16(w, r)       // writer and reader agree on the frame size limit
-		ruleGRDownParse(w, r) // arguments read back byte for byte: none is a window into the reader's buffer
-		ruleORD15(w, r)       // still applies every intact command after a damaged region
+		ruleORD11(w, r)        // the offset a resync starts from never lags behind the frames already applied
+		ruleCDC16(w, r)        // writer and reader agree on the frame size limit
+		ruleGRDownParse(w, r)  // arguments read back byte for byte: none is a window into the reader's buffer
+		ruleORD15(w, r)        // still applies every intact command after a damaged region
+		ruleGRDshortread(w, r) // a decoder fills its buffers with io.ReadFull, never with one Read
 	})
 }
 
@@ -30,14 +31,15 @@ func init() {
 		ruleORD7b(w, r)
 		ruleORD1b(w, r)
 		ruleCDC5(w, r)
-		ruleCDC6(w, r)       // a torn first frame is repaired, not a reason to refuse start-up
-		ruleORD2c(w, r)      // the older snapshot is retired only once the compacted log is in place
-		ruleORD10(w, r)      // a crash inside a precision change must leave an openable directory
-		ruleORD4(w, r)       // a refused compaction must not end a running snapshot's shadow mode
-		ruleORD9(w, r)       // a crash right after a snapshot must not lose writes that were being applied while it was taken
-		ruleORD11(w, r)      // the offset a torn tail is truncated to never lags behind the frames already applied
-		ruleORD13(w, r)      // index drop: the VDROP record is in the file before the arena is destroyed
-		ruleGRDasyncrm(w, r) // no deferred deletion by path name
+		ruleCDC6(w, r)         // a torn first frame is repaired, not a reason to refuse start-up
+		ruleORD2c(w, r)        // the older snapshot is retired only once the compacted log is in place
+		ruleORD10(w, r)        // a crash inside a precision change must leave an openable directory
+		ruleORD4(w, r)         // a refused compaction must not end a running snapshot's shadow mode
+		ruleORD9(w, r)         // a crash right after a snapshot must not lose writes that were being applied while it was taken
+		ruleORD11(w, r)        // the offset a torn tail is truncated to never lags behind the frames already applied
+		ruleORD13(w, r)        // index drop: the VDROP record is in the file before the arena is destroyed
+		ruleGRDasyncrm(w, r)   // no deferred deletion by path name
+		ruleSIBpeerparam(w, r) // a replayed unlink is recognised as applied in BOTH views
 	})
 	register("C14", "no acknowledged write lost to snapshot/compaction/shutdown", func(w *World, r *Report) {
 		ruleORD1(w, r)
@@ -122,6 +124,7 @@ func init() {
 		ruleGRDverbatimHybrid(w, r) // the filter of a hybrid query is evaluated as written
 		ruleTBLwire(w, r)           // a tombstone written by an earlier build is still a tombstone: the names in the snapshot format stay
 		ruleGRDzerocapture(w, r)    // the graph scope's depth limit reads the node being expanded
+		ruleSIBpeerparam(w, r)      // graph-scoped search reads the reverse view: each view is searched for its own peer id
 	})
 }
 
@@ -138,6 +141,7 @@ func init() {
 		ruleGRDstaleLookup(w, r)    // an inner index map read before the pruning of old entries is not written afterwards
 		ruleGRDverbatimKey(w, r)    // string equality asks the inverted index for the value as written
 		ruleCDC13(w, r)             // filters select the same vectors after a restart, also for adds that raced a snapshot
+		ruleGRDquotetrim(w, r)      // blanks inside a quoted literal belong to the value
 		ruleGRDverbatimHybrid(w, r) // quoted values reach the evaluator byte for byte
 		ruleGRDreindex(w, r)        // the index entries of a value the node no longer has are removed
 		ruleGRDnewid(w, r)
@@ -152,12 +156,14 @@ func init() {
 		ruleCDC123(w, r, map[string]bool{"GLINK": true, "GUNLINK": true})
 		ruleCDC4(w, r, map[string]bool{"GLINK": true, "GUNLINK": true})
 		ruleGRDtime(w, r)
-		ruleJRN5(w, r)         // a link request that names an inverse relation is not acknowledged from a look at the forward edge alone
-		ruleCDC15(w, r)        // history survives restart: a record applied twice adds no version
-		ruleGRDrevAppend(w, r) // the two views agree at every instant
-		ruleGRDshardhash(w, r) // a snapshot written by another build shows the same edges: the node placement function is part of the format
-		ruleCDC15c(w, r)       // replayed link/unlink records keep distinct identities
-		ruleLCK1graph(w, r)    // an edge operation that keeps a shard locked ends every later query of that shard
+		ruleJRN5(w, r)          // a link request that names an inverse relation is not acknowledged from a look at the forward edge alone
+		ruleCDC15(w, r)         // history survives restart: a record applied twice adds no version
+		ruleGRDrevAppend(w, r)  // the two views agree at every instant
+		ruleGRDshardhash(w, r)  // a snapshot written by another build shows the same edges: the node placement function is part of the format
+		ruleCDC15c(w, r)        // replayed link/unlink records keep distinct identities
+		ruleLCK1graph(w, r)     // an edge operation that keeps a shard locked ends every later query of that shard
+		ruleSIBpeerparam(w, r)  // the forward list is searched for the target, the reverse list for the source
+		ruleGRDviewdelete(w, r) // pruning one view never deletes from the other
 	})
 	register("C11", "graph queries compute exact bounded reachability and shortest paths", func(w *World, r *Report) {
 		ruleGRDbfs(w, r, []bfsSpec{{"pkg/engine", "Engine.resolveGraphFilter", 5}, {"pkg/engine", "Engine.VExtractSubgraph", 5}, {"pkg/engine", "Engine.FindPath", 0}}, "GRD-bfs")
@@ -178,6 +184,7 @@ func init() {
 		ruleLCK7emit(w, r)      // a panic in the delete's event emission would skip the cascade
 		ruleCDC15c(w, r)        // a second deletion of a re-added id is repaired like the first: replay dates its repairs per record
 		ruleORD9(w, r)          // the cascade runs inside the operation gate: no snapshot cuts between a delete and its unlinks
+		ruleGRDdropgraph(w, r)  // a dropped index takes its graph nodes with it: a re-created index starts without relations
 	})
 }
 
@@ -233,6 +240,7 @@ func init() {
 		ruleGRDcommaok(w, r)       // a key set to the empty value is a key
 		ruleGRDnewid(w, r)         // compression keeps every record's metadata with its record
 		ruleGRDdimcheck(w, r)
+		ruleGRDdropgraph(w, r) // a dropped index takes its graph nodes with it: a re-created index starts without relations
 	})
 }
 
@@ -300,6 +308,7 @@ func init() {
 		ruleGRDlevelmult(w, r) // m = 1 in a create request must not wedge the index
 		ruleLCK7emit(w, r)     // an event fan-out that can send on a closed channel panics inside the request that emitted
 		ruleGRDpath(w, r)      // a relation path in a request cannot drive the traversal deeper than its constant cap
+		ruleWEBencode(w, r)    // an answer that cannot be encoded is an error answer, not 200 with an empty body
 	})
 }
 
@@ -382,5 +391,7 @@ func init() {
 		ruleGRDtrainedEnsure(w, r)    // a quantized index searches on trained codes: training is retried until it has succeeded
 		ruleGRDqueryscale(w, r)       // an int8 index answers like the float index it approximates, whatever the magnitude of the data
 		ruleGRDfrozenset(w, r)        // a vacuum leaves no live node linking to a node it freed
+		ruleGRDefboost(w, r)          // the beam widened for an unrefined index is the one the base layer is searched with
+		ruleGRDelecttop(w, r)         // a vacuum that removes the entry point keeps the upper layers in use
 	})
 }
